@@ -26,7 +26,7 @@ REQUIRED_COUNTERS = ("anchor:Molecules.to_dataframe", "anchor:Molecules.from_dat
                      "anchor:Molecules.to_file", "anchor:Molecules.from_file")
 RULE = ("case = random table (1..200 rows; positions up to 1e5; orientations incl. angles within 1e-6 of 0 and "
         "pi; int/float/str/bool/null features) written and re-read through one of to_file/from_file (suffix "
-        "dispatch checked on the bytes), to_csv/from_csv (precision p), to_parquet/from_parquet, "
+        "dispatch checked on the bytes; for mixed-case .PQ/.Parquet only that writer and reader agree), to_csv/from_csv (precision p), to_parquet/from_parquet, "
         "to_dataframe/from_dataframe; rows compared in order; non-trivial = >= 2 rows with a non-identity "
         "rotation; distinct by (route, precision, row count, seed)")
 TOLERANCES = {"parquet_angle_rad": 3e-6, "csv_extra_ulp": 4}
